@@ -1,0 +1,21 @@
+package util
+
+import (
+	"fmt"
+	"strings"
+
+	"github.com/berquerant/crd/errorx"
+)
+
+// parse calls f. A parser that panics on the bytes it is given has failed to
+// parse them: gopkg.in/yaml.v3 does so on a mapping that has a merge key next
+// to a mapping or sequence used as a key ("hash of unhashable type").
+func parse[T any](b []byte, f func([]byte) (T, error)) (t T, err error) {
+	defer func() {
+		if p := recover(); p != nil {
+			var zero T
+			t, err = zero, errorx.Invalid("cannot parse: the parser gave up (%s)", strings.TrimPrefix(fmt.Sprint(p), "runtime error: "))
+		}
+	}()
+	return f(b)
+}
